@@ -338,13 +338,12 @@ def run_c14(ck, ctx):
         gt = ground_truth(data, flt, analysed)
         sv = stats_view(r.stats)
         view_mode = args[:1] == ['view']
-        if view_mode: sv['links'] = sorted(sv['links'])      # finalisation (which sorts) is skipped in view mode; the set is what is compared
         bad = {k: (sv.get(k), v) for k, v in gt.items() if sv.get(k) != v}
         # total errors / distinct codes against the error list itself
         es = r.stats['error_stats']
         if es['total_errors'] != len(es['reported_errors']) + len(es['custom_checks_stats_errors']):
             bad['total_errors'] = (es['total_errors'], len(es['reported_errors']))
-        if not view_mode and not (not args):
+        if True:      # every mode that writes a statistics file: distinct codes = codes of the reported messages, first occurrence
             codes = []
             for m in es['reported_errors']:
                 import re
@@ -384,7 +383,7 @@ def run_c14(ck, ctx):
         if r.stats is None or 'INITERR' in m: continue
         sv = stats_view(r.stats)
         kv = dict(t.split('=', 1) for t in m.split(' | ')[0].split(' ') if '=' in t)
-        links = sorted(sv['links']) if args[:1] == ['view'] or not args else sv['links']
+        links = sv['links']
         mine = dict(seen=str(sv['rdhs_seen']), filtered=str(sv['rdhs_filtered']), payload=str(sv['payload_size']), hbfs=str(sv['hbfs_seen']),
                     links=','.join(map(str, links)), fees=','.join(map(str, sv['fee_id'])),
                     trig=','.join(str(sv['trig'][n]) for n in TRIG_NAMES), total=str(r.stats['error_stats']['total_errors']),
